@@ -82,15 +82,32 @@ class C08(Check):
         if bad: self._cviol.append(dict(key=bad[0], got='non-zero', expected='0 (Coster-Kronig-type)', what='CKZero data invariant fails on the run-time table'))
 
     # ---------------------------------------------------------------- run-time functions
+    def energies(self, ctx, Z):
+        """energies bracketing every K/L/M edge of the element (just below, just above), the geometric mean of each pair of
+        neighbouring edges (the windows in which a sub-shell is excited and the next is not) and fixed energies spanning the tables"""
+        if not hasattr(ctx, '_c08edges'):
+            q = ['EdgeEnergy %d %d N' % (z, s) for z in range(1, 121) for s in range(9)]
+            ctx._c08edges = {}
+            for l, o in zip(q, ctx.run_c(q)):
+                v = core.parse_answer(o)['vals'][0]
+                if v > 0: ctx._c08edges.setdefault(int(l.split()[1]), []).append(v)
+        ed = sorted(set(ctx._c08edges.get(Z, [])))
+        mids = [(a * b) ** 0.5 for a, b in zip(ed, ed[1:])]
+        brack = [e * f for e in ed for f in (1 - 1e-5, 1 + 1e-5)]
+        fixed = [0.5, 1.0, 3.0, 8.0, 15.0, 40.0, 100.0, 150.0]
+        if ctx.tier == 'thorough': return sorted(set(mids + brack + fixed))
+        r = ctx.rng
+        return sorted(set(mids + r.sample(brack, min(4, len(brack))) + r.sample(fixed, 3)))
+
     def kissel_lines(self, ctx):
+        if hasattr(ctx, '_c08kl'): return ctx._c08kl
         out = []
         step = 1 if ctx.tier == 'thorough' else 4
         off = ctx.rng.randrange(step)
         n = self.names(ctx)
         line_vals = sorted(set(v for k, v in n['lines'].items()))
         for Z in range(1 + off, 99, step):
-            Es = [0.5, 1.0, 3.0, 8.0, 15.0, 40.0, 100.0, 150.0]
-            for E in Es:
+            for E in self.energies(ctx, Z):
                 for sh in range(-1, 11):
                     for v in list(VAR) + ['']:
                         for pre in ('CS', 'CSb'):
@@ -103,6 +120,7 @@ class C08(Check):
                             out.append('%s_FluorLine_Kissel%s %d %d %s E' % (pre, '_' + v if v else '', Z, ln, hx(E)))
                 for fn in ('CS_Total_Kissel', 'CSb_Total_Kissel', 'CS_Photo_Total', 'CSb_Photo_Total'):
                     out.append('%s %d %s E' % (fn, Z, hx(E)))
+        ctx._c08kl = out
         return out
 
     def corr_lines(self, ctx):
@@ -151,12 +169,14 @@ class C08(Check):
         n = self.names(ctx)
         exe = ctx.sc.path('cdrv' + suf)
         Zs = sorted({int(l.split()[1]) for l in kl})
-        Es = sorted({unhx(l.split()[-2]) for l in kl if 'FluorShell' in l})
+        EsZ = {}
+        for l in kl:
+            if 'FluorShell' in l: EsZ.setdefault(int(l.split()[1]), set()).add(unhx(l.split()[-2]))
         prim = []
         for Z in Zs:
             for s in range(9):
                 prim += ['FluorYield %d %d N' % (Z, s), 'AugerYield %d %d N' % (Z, s)]
-                for E in Es: prim.append('CS_Photo_Partial %d %d %s N' % (Z, s, hx(E)))
+                for E in sorted(EsZ.get(Z, ())): prim.append('CS_Photo_Partial %d %d %s N' % (Z, s, hx(E)))
             for a in range(996): prim.append('AugerRate %d %d N' % (Z, a))
             for v in sorted(set(n['lines'].values())): prim.append('RadRate %d %d N' % (Z, v))
             for t in range(1, 15): prim.append('CosKronTransProb %d %d N' % (Z, t))
